@@ -65,8 +65,15 @@ def _check(ctx, case, continuum):
     want = case.get("want") or ("both" if (nunits <= 14 and ctx.rng.random() < 0.3) else "auto")
     opt = oracles.optimum(cspec, dissim, cover=True, want=want)
     ctx.observe("oracle_methods", "+".join(sorted(opt["methods"])))
-    if not opt["methods"] or not opt["agree"]:
-        ctx.inconclusive_because(f"oracle methods disagree or failed: {opt['methods']} on {ctx.current}")
+    if not opt["methods"]:
+        # the independent solver gave up within its time limit (loaded machine): this case is simply not judged; the
+        # number of such cases is reported, and the run is inconclusive only if they are more than a few
+        ctx.count("oracle-unavailable")
+        if ctx.monitors["oracle-unavailable"] > max(5, 0.05 * ctx.evaluations):
+            ctx.inconclusive_because("the independent MILP oracle timed out on more than 5 % of the cases")
+        return
+    if not opt["agree"]:
+        ctx.inconclusive_because(f"oracle methods disagree: {opt['methods']} on {ctx.current}")
         return
     ctx.count("M-OPT")
     ref = opt["value"]
@@ -92,6 +99,12 @@ def run(ctx):
     dspecs = cases.gen_pool_specs(ctx.rng, ctx.scale(12, 30))
     dspecs += [{"kind": "positional", "delta": 0.5},
                {"kind": "combined", "alpha": 1.0, "beta": 1.0, "delta": 1.0, "pos": None, "cat": None}]
+    for _ in range(3):      # a few editing sessions first, whatever the time budget (deciding monitor)
+        cs0 = cases.gen_continuum(ctx.rng, n_annot=3, max_units=3, allow_empty=False, labels=cases.LABELS_SMALL)
+        case = {"continuum": cs0, "dissim": {"kind": "positional", "delta": 0.5}, "backend": "cbc",
+                "session": ac.gen_edit_ops(ctx.rng, cs0, cases.LABELS_SMALL, 3)}
+        ctx.begin_case(case)
+        check_case(ctx, case)
     for _ in range(ctx.scale(220, 5000)):
         if ctx.out_of_time():
             break
